@@ -20,6 +20,11 @@ for d in sorted(glob.glob(os.path.join(V, "seeded", "*"))):
         diff = open(os.path.join(d, "patch.diff")).read()
         files = sorted(set(re.findall(r"^\+\+\+ b/(\S+)", diff, re.M)))
         what = ", ".join(files)
+        np_ = os.path.join(d, "notes.md")
+        if os.path.exists(np_):
+            body = [l.strip(" #*-`") for l in open(np_).read().splitlines() if l.strip(" #*-`")]
+            if body:
+                what += " — " + " ".join(body[:3])[:260]
     checks = "; ".join("%s→exit %s" % (c, r["exit"]) for c, r in sorted(m.get("checks_run", {}).items()))
     rows.append("| %s-%s | %s | %s | %s | %s |" % (m["property"], m["k"], what.replace("|", "/"), m.get("verdict", "?"),
                                                   ", ".join(m.get("caught_by", [])) or "— (missed)", checks))
